@@ -73,6 +73,13 @@ def run(prog, rep):
                 for t in n.targets:
                     if isinstance(t, ast.Name):
                         fmt_of[h.qualname].add(t.id)
+    for h in se_funcs:
+        for _ in range(2):
+            for n in walk_no_nested(h.node):
+                if isinstance(n, ast.Assign) and isinstance(n.value, ast.Name) and n.value.id in fmt_of[h.qualname]:
+                    for t in n.targets:
+                        if isinstance(t, ast.Name):
+                            fmt_of[h.qualname].add(t.id)      # a second name for the format object
     # a helper that is handed the format object: its parameter is a format variable too
     for _ in range(2):
         for h in se_funcs:
